@@ -162,3 +162,63 @@ fn c05_frame_loop_counts_frames() {
 fn c05_frame_loop_counts_frames_6() {
     frame_loop_body(6);
 }
+
+// =============================================================================================
+// C08 — pokes reach the display copy
+// =============================================================================================
+use crate::utils::screen::verif_hooks::{spec_attr_offset, spec_bitmap_offset};
+use crate::zx::video::screen::verif_hooks as sh;
+
+struct OnePoke {
+    actions: [poke::PokeAction; 1],
+}
+impl poke::Poke for OnePoke {
+    fn actions(&self) -> &[poke::PokeAction] {
+        &self.actions
+    }
+}
+
+pub(crate) fn noop_force_write(_m: &mut crate::zx::memory::ZXMemory, _addr: u16, _value: u8) {}
+
+// @harness
+// @prop C08
+// @tier quick
+// @timeout 900
+// @fn Emulator::execute_poke; ZXMemory::get_page; ZXScreen::update
+// @sym machine, paging latch, poke address (all 65536) and value, probe cell
+// @assert a memory poke into display memory (through any window) is shown: the display copy of the bank it lands in holds the poked byte at the statement's cell, and no other cell changes
+// @bound one poke action; the RAM/ROM array store itself is cut (ZXMemory::force_write stubbed, see c08_cpu_write_reaches_display_copy)
+// @stub ZXMemory::force_write -> no-op; ZXScreen::process_clocks -> no-op
+// @replay solver-only
+#[kani::proof]
+#[kani::unwind(10)]
+#[kani::stub(crate::zx::video::screen::ZXScreen::process_clocks, ch::noop_screen_clocks)]
+#[kani::stub(crate::zx::memory::ZXMemory::force_write, noop_force_write)]
+fn c08_poke_reaches_display_copy() {
+    let m = any_machine();
+    let mut e = mk_emulator(m, FbCtx { wx: 0, wy: 0 });
+    let mut latch = ch::SpecLatch::reset();
+    let v1: u8 = kani::any();
+    if m == ZXMachine::Sinclair128K {
+        e.controller.write_7ffd(v1);
+    }
+    latch.write(m, v1);
+    let addr: u16 = kani::any();
+    let d: u8 = kani::any();
+    kani::assume(d != 0);
+    e.execute_poke(OnePoke { actions: [poke::PokeAction::mem(addr, d)] });
+    let landed = match latch.page(m, (addr >> 14) as usize) {
+        crate::zx::memory::Page::Ram(b) => ch::spec_display_bank(m, b),
+        crate::zx::memory::Page::Rom(_) => None,
+    };
+    let off = (addr & 0x3FFF) as usize;
+    let (pl, py, pc): (usize, usize, usize) = (kani::any(), kani::any(), kani::any());
+    kani::assume(pl < 2 && py < 192 && pc < 32);
+    let hit_bitmap = landed == Some(pl) && off == spec_bitmap_offset(py, pc);
+    let hit_attr = landed == Some(pl) && off == spec_attr_offset(py, pc);
+    kani::assert(sh::shadow_bitmap(&e.controller.screen, pl, py, pc) == if hit_bitmap { d } else { 0 }, "c08.poke.bitmap_cell");
+    kani::assert(sh::shadow_attr(&e.controller.screen, pl, py >> 3, pc) == if hit_attr { d } else { 0 }, "c08.poke.attribute_cell");
+    kani::cover!(hit_bitmap && addr < 0x8000, "poke into the fixed screen window");
+    kani::cover!(hit_attr && pl == 1, "poke into bank 7 attributes");
+    kani::cover!(landed.is_none() && addr < 0x4000, "ROM poke");
+}
